@@ -1,6 +1,7 @@
 package main
 
 import (
+	"go/token"
 	"fmt"
 	"go/ast"
 	"go/types"
@@ -141,8 +142,12 @@ func (m *mustUse) CallUses(fi *FuncInfo, c *ast.CallExpr, match func(ast.Expr) b
 }
 
 // Param reports whether every path from the entry of fi to a return applies the use to parameter idx.
-func (m *mustUse) Param(fi *FuncInfo, idx int) bool {
-	key := fi.Key + "#" + itoa(idx)
+func (m *mustUse) Param(fi *FuncInfo, idx int) bool { return m.ParamField(fi, idx, "") }
+
+// ParamField is Param for a value that travels in a field of the parameter (a small carrier struct:
+// batch{files: list} handed to batch.run): every path applies the use to parameter.field.
+func (m *mustUse) ParamField(fi *FuncInfo, idx int, field string) bool {
+	key := fi.Key + "#" + itoa(idx) + "." + field
 	if v, ok := m.memo[key]; ok {
 		return v
 	}
@@ -160,10 +165,26 @@ func (m *mustUse) Param(fi *FuncInfo, idx int) bool {
 			f = m.Prune(fi, f, po)
 		}
 		match := func(e ast.Expr) bool { return objOf(info, e) == po }
+		if field != "" {
+			match = func(e ast.Expr) bool {
+				sel, ok := ast.Unparen(e).(*ast.SelectorExpr)
+				return ok && sel.Sel.Name == field && objOf(info, sel.X) == po
+			}
+		}
 		done := setOf(f.Match(func(n *GNode) bool {
 			for _, c := range callsIn(n.Ast, false) {
 				if m.CallUses(fi, c, match) {
 					return true
+				}
+				// the carrier handed on whole
+				if field != "" {
+					if callee := m.p.staticCallee(fi.Pkg, c); callee != nil {
+						for i2, a := range argExprs(c, callee) {
+							if objOf(info, a) == po && m.ParamField(callee, i2, field) {
+								return true
+							}
+						}
+					}
 				}
 			}
 			return false
@@ -578,4 +599,38 @@ func (p *Prog) returnedFuncs(fi *FuncInfo) []returnedFn {
 		return true
 	})
 	return out
+}
+
+// carrierCtor: the call builds a small struct of the module around one of its arguments - a function of the module
+// whose body is "return T{..., F: param, ...}" (or &T{...}). It returns the field the argument at index arg is
+// stored in ("" when the call is not of that shape).
+func (p *Prog) carrierCtor(pkg *packages.Package, c *ast.CallExpr, arg int) string {
+	h := p.staticCallee(pkg, c)
+	if h == nil || h.Decl == nil || h.Decl.Body == nil || len(h.Decl.Body.List) != 1 {
+		return ""
+	}
+	rs, ok := h.Decl.Body.List[0].(*ast.ReturnStmt)
+	if !ok || len(rs.Results) != 1 {
+		return ""
+	}
+	e := ast.Unparen(rs.Results[0])
+	if u, ok := e.(*ast.UnaryExpr); ok && u.Op == token.AND {
+		e = ast.Unparen(u.X)
+	}
+	cl, ok := e.(*ast.CompositeLit)
+	if !ok {
+		return ""
+	}
+	po := paramObjs(h)[arg]
+	if po == nil {
+		return ""
+	}
+	for _, el := range cl.Elts {
+		if kv, ok := el.(*ast.KeyValueExpr); ok {
+			if k, ok := kv.Key.(*ast.Ident); ok && objOf(h.Pkg.TypesInfo, kv.Value) == po {
+				return k.Name
+			}
+		}
+	}
+	return ""
 }
